@@ -13,6 +13,7 @@
 import Cello.Str
 import CelloGen.Str
 import CelloProofs.Lemmas.StrRun
+import CelloProofs.Lemmas.StrBytes
 
 namespace Cello.Str
 
@@ -222,6 +223,14 @@ theorem C16_print_to {P : Params} (hP : P.Lawful) (J : Nat → Byte) (s : Str) (
     (printTo P J s pos fs).2.2.all Acc.inBounds = true := by
   have h := printTo_ok hP J fs s pos hs hpos hfs
   exact ⟨h.1, h.2.1 hne, h.2.2.1, h.2.2.2⟩
+
+/-- The block operations of the model are the byte loops: an in-bounds block store is the loop of single-byte stores
+    at indices `off, off+1, …, off+n-1` (each `< cap`), and `strlen` is the loop that reads `buf[off], buf[off+1], …`
+    up to the first NUL — so "every access in the log is in bounds" is "every index touched is `< cap`". -/
+theorem C16_block_ops_are_byte_loops (buf bs : List Byte) (off : Nat) :
+    (off + bs.length ≤ buf.length → storeBytes buf off bs = writeAt buf off bs) ∧
+    strlenLoop buf off (buf.length - off) = strlen buf off :=
+  ⟨storeBytes_eq_writeAt bs buf off, strlenLoop_eq _ buf off (Nat.le_refl _)⟩
 
 /-- **The current source**: the allocation sizes and the `memmove` count that the translator reads from
     src/String.c on this run are lawful, so every theorem above applies to the code as it is now. If a size loses
